@@ -18,11 +18,12 @@ import (
 )
 
 type Stmt struct {
-	Kind  string // begin commit rollback exec query
-	SQL   string
-	Args  []driver.Value
-	Col0  []string // first column of every returned row (queries)
-	Label string
+	Kind   string // begin commit rollback exec query
+	SQL    string
+	Args   []driver.Value
+	Col0   []string // first column of every returned row (queries)
+	Label  string
+	Failed bool // the injected fault hit this statement
 }
 
 var ErrInjected = errors.New("injected storage failure")
@@ -101,9 +102,15 @@ func (c *Ctl) hit(ctx context.Context, kind, q string, args []driver.NamedValue)
 	if c.failLabel == "" || c.failLabel == labelOf(ctx) {
 		c.n++
 		if c.failAt != 0 && c.n == c.failAt {
+			if st != nil {
+				st.Failed = true
+			}
 			return st, ErrInjected
 		}
 		if c.cancelAt != 0 && c.n == c.cancelAt && c.cancel != nil {
+			if st != nil {
+				st.Failed = true
+			}
 			c.cancel()
 			return st, context.Canceled
 		}
